@@ -41,6 +41,16 @@ class KCase:
     def oexp(self, o):
         return bool(self.types[o["owner"]][2]) if o["kind"] == TYPENAME else bool(o["exp"])
 
+    def odispatch(self, o):
+        """an unexported method that takes part in dynamic dispatch (visible downstream although unexported): a method of
+        an interface type, or one named like an unexported method of an interface type of its package"""
+        if o["kind"] != METHOD or o["exp"]:
+            return False
+        if self.types[o["owner"]][3]:
+            return True
+        return any(x["kind"] == METHOD and not x["exp"] and x["name"] == o["name"] and self.types[x["owner"]][3]
+                   and self.types[x["owner"]][0] == self.types[o["owner"]][0] for x in self.objs)
+
     def oline(self, i):
         o = self.objs[i]
         return 200 + o["owner"] if o["kind"] == TYPENAME else 2 + i
@@ -60,7 +70,7 @@ class KCase:
             out += list(t)
         out.append(len(self.objs))
         for o in self.objs:
-            out += [o["kind"], self.opkg(o), o["name"], o["exp"], o["owner"], o["nparams"], o["named"], o["nresults"], o["recvnamed"]]
+            out += [o["kind"], self.opkg(o), o["name"], o["exp"], o["owner"], o["nparams"], o["named"], o["nresults"], o["recvnamed"], int(self.odispatch(o))]
         out.append(len(self.keys))
         for k in self.keys:
             out += [k["kind"], k["obj"], k["num"], k["fld"], k["lf"], k["ll"], k["lc"], k["track"]]
@@ -82,7 +92,7 @@ class KCase:
         for i, o in enumerate(self.objs):
             pa = paths[i]
             pid = -1 if pa == "" else pids.setdefault((self.opkg(o), pa), len(pids))
-            out += [self.opkg(o), nid(self.oname(o)), int(self.oexp(o)), pid]
+            out += [self.opkg(o), nid(self.oname(o)), int(self.oexp(o)), int(self.odispatch(o)), pid]
         self.pid_names = {v: k for k, v in pids.items()}
         out.append(len(self.keys))
         for k in self.keys:
@@ -113,7 +123,7 @@ class KCase:
         kinds = ["func", "method", "field", "gvar", "lvar", "typename"]
         ls = ["%d packages (import paths ex.com/kp<i>/util, all named util)" % self.np]
         for i, t in enumerate(self.types):
-            ls.append("  type #%d: %s in package %d" % (i, ("T%d" if t[2] else "t%d") % t[1], t[0]))
+            ls.append("  type #%d: %s%s in package %d" % (i, "interface " if t[3] else "", ("T%d" if t[2] else "t%d") % t[1], t[0]))
         for i, o in enumerate(self.objs):
             ls.append("  object #%d: %s %s in package %d%s (line %d)%s" % (i, kinds[o["kind"]], self.oname(o), self.opkg(o),
                       " of type #%d" % o["owner"] if o["kind"] in (METHOD, FIELD, TYPENAME) else "", self.oline(i),
@@ -136,10 +146,11 @@ def gen(rng):
     np = rng.randint(1, 3)
     types, seen = [], set()
     for _ in range(rng.randint(1, 3)):
-        t = (rng.randrange(np), rng.randrange(2), rng.randrange(2))
+        # (package, name index, exported, interface type)
+        t = (rng.randrange(np), rng.randrange(2), rng.randrange(2), int(rng.random() < 0.35))
         if (t[0], t[1], t[2]) in seen:
             continue
-        seen.add(t)
+        seen.add((t[0], t[1], t[2]))
         types.append(t)
     objs, scope, members = [], set(), set()
     for _ in range(rng.randint(3, 9)):
@@ -149,6 +160,13 @@ def gen(rng):
         if kind in (METHOD, FIELD, TYPENAME):
             o["owner"] = rng.randrange(len(types))
             o["pkg"] = types[o["owner"]][0]
+            if types[o["owner"]][3]:
+                if kind == FIELD:
+                    continue            # interface types have no fields
+                if kind == METHOD:
+                    o["recvnamed"] = 0  # and their methods no receiver name
+                    if rng.random() < 0.6:
+                        o["exp"] = 0    # unexported interface methods are the interesting ones
         if kind in (FUNC, GVAR):
             key = (o["pkg"], kind, o["name"], o["exp"])
             if key in scope:
@@ -348,6 +366,8 @@ def correspond(ctx, n):
     for c, l in zip(cases, real_lines):
         paths, qs = parse_real(l)
         parsed.append(qs)
+        if paths is not None and len(paths) < len(c.objs):
+            paths = paths + [""] * (len(c.objs) - len(paths))      # "paths=" of a single object without a path
         mlines.append(c.model_line(paths if paths is not None else [""] * len(c.objs)))
     rc, model_lines, err = run_model(mlines)
     if rc != 0 or len(model_lines) != len(cases):
